@@ -315,6 +315,10 @@ class Unit(HookHost):
                 u.parent = self._owner()
             super().extend(units)
 
+        def __iadd__(self, units: Iterable["Unit"]) -> "Unit._SubUnitsList":
+            self.extend(units)
+            return self
+
         def insert(self, i: Union[SupportsIndex, slice], unit: "Unit") -> None:
             unit.parent = self._owner()
             super().insert(i, unit)
